@@ -3,53 +3,83 @@ probe rounds (indirect probes through delegates, piggy-backed updates, suspicion
 responding (library `CrashNode` / `PauseNode` fault, or a partition from everybody that may heal), a second
 partition splitting the cluster, a node that learns of a late joiner during the run; plus stand-alone
 `PhiAccrualDetector`s fed with heartbeats that travel over lossy / jittery links from senders that go silent
-for a window, sampled periodically by a monitor entity."""
+for a window, sampled periodically by a monitor entity.
+
+Widened configuration space: 2–8 nodes; probe interval / suspicion timeout / link latency from a boundary palette
+whose ranges overlap (suspicion timeout shorter than half a probe interval or longer than the run, latency longer than
+the ack timeout, probe intervals of 4–10 ms so that a member's detector sees more than its 200-sample window),
+per-node probe intervals, `indirect_probe_count` from 0 to more than there are members, nodes started before the run
+(`sim.schedule(node.start())`) or by a boot event, fault windows on instants that lose a nanosecond in
+`Instant.from_seconds`, windows that outlive the run; detectors with every constructor parameter drawn (default and
+tiny / huge window, min_std from 1 µs to 1 s, thresholds 0.1–16), heartbeat periods 2–600 ms, bursts of same-instant
+heartbeats, sampling periods shorter and longer than the heartbeat period."""
 from __future__ import annotations
 
 import random
 
-from hv.scenarios.base import T, dataclass_stats, seed_all, stats_of, sub_seed
+from hv.scenarios.base import T, dataclass_stats, dur_ms, seed_all, size_over, stats_of, sub_seed
 
 NAME = "membership"
 MODEL = "C13"
-COMPONENTS = ["MembershipProtocol", "PhiAccrualDetector", "MemberInfo", "Network", "NetworkLink", "Partition",
-              "FaultSchedule", "CrashNode", "PauseNode", "Source"]
+COMPONENTS = ["MembershipProtocol", "PhiAccrualDetector", "MemberInfo", "MemberState", "Network", "NetworkLink",
+              "Partition", "FaultSchedule", "CrashNode", "PauseNode", "Source"]
 
 
 def gen_cfg(rng):
-    end = rng.choice([3.0, 4.0, 6.0])
+    end = rng.choice([3.0, 4.0, 6.0]) if rng.random() > 0.1 else rng.choice([8.0, 10.0])
     end_ms = int(end * 1000)
-    n = rng.randint(4, 7)
-    a = rng.randint(500, end_ms - 1500)
+    fast = rng.random() < 0.12 and end <= 6        # probe rounds every few ms: > 200 heartbeats per member detector
+    n = rng.choice([2, 3, 4, 4, 5, 6, 7, 8]) if not fast else rng.choice([2, 3, 4])
+    if fast:
+        probe = dur_ms(rng, 4, 10)
+    elif rng.random() < 0.75:
+        probe = dur_ms(rng, 25, 300)
+    else:
+        probe = dur_ms(rng, 300, 1500)
+    if end > 6:
+        probe = max(probe, 60)
+    a = dur_ms(rng, 200, end_ms - 800)
+    det = []
+    for _ in range(rng.randint(1, 3)):
+        hb = dur_ms(rng, 2, 40) if rng.random() < 0.3 else dur_ms(rng, 20, 600)
+        if end > 6:
+            hb = max(hb, 15)
+        sa = dur_ms(rng, 100, end_ms - 500)
+        det.append({"hb_ms": hb, "poisson": rng.random() < 0.5,
+                    "threshold": rng.choice([0.1, 1.0, 3.0, 8.0, 16.0]),
+                    # None: the constructor default (200); otherwise around / below / above it
+                    "window": rng.choice([None, 1, 2, 5, 50, size_over(rng, [5, 50], 200)]),
+                    "min_std_ms": rng.choice([0.001, 1, 10, 100, 1000]), "initial": rng.random() < 0.5,
+                    "silent": [sa, dur_ms(rng, 1, 1500)],
+                    "burst": rng.choice([1, 1, 1, 2, 5])})
     return {
         "end": end,
         "events_before_sim": rng.random() < 0.25,
         "n": n,
-        "probe_ms": rng.choice([40, 80, 150]),
-        "suspicion_ms": rng.choice([150, 400, 900]),
-        "indirect": rng.randint(0, 3),
-        "phi": rng.choice([1.0, 3.0, 8.0]),
-        "link": rng.choice(["const", "exp", "exp-lossy", "datacenter", "jitter"]),
-        "lat_ms": rng.randint(1, 30),
-        "loss": rng.choice([0.05, 0.2]),
-        "stagger_ms": rng.choice([0, 0, 3, 11]),
-        "stop": {"node": rng.randrange(n), "start": a, "end": a + rng.randint(300, 1200),
-                 "kind": rng.choice(["crash", "pause", "crash-forever", "partition", "partition-forever"])},
-        "split": [rng.randint(300, end_ms - 1000), rng.randint(100, 600), rng.randint(1, n - 1)]
+        "probe_ms": probe,
+        # per-node factor on the probe interval (a slow prober among fast ones); [] = homogeneous
+        "probe_factor": [rng.choice([1, 1, 1, 2, 0.5, 5]) for _ in range(n)] if rng.random() < 0.3 and not fast else [],
+        "suspicion_ms": rng.choice([dur_ms(rng, 1, 100), dur_ms(rng, 100, 1500), dur_ms(rng, 1000, end_ms + 1000)]),
+        "indirect": rng.choice([0, 1, 2, 3, 3, n, n + 3]),
+        "phi": rng.choice([0.1, 1.0, 3.0, 8.0, 16.0]),
+        "link": rng.choice(["const", "exp", "exp-lossy", "datacenter", "jitter", "zero", "const-lossy"]),
+        "lat_ms": dur_ms(rng, 0.1, 30) if rng.random() < 0.7 else dur_ms(rng, 30, 800),
+        "loss": rng.choice([0.0, 0.05, 0.2, 0.5, 1.0]),
+        "boot": rng.choice(["event", "event", "direct"]),
+        "stagger_ms": dur_ms(rng, 1, 1200, zero=True) if rng.random() < 0.5 else 0,
+        "stop": {"node": rng.randrange(n), "start": a, "end": dur_ms(rng, a + 1, min(a + 2000, end_ms + 500)),
+                 "kind": rng.choice(["crash", "pause", "crash-forever", "partition", "partition-forever", "none"])},
+        "split": [dur_ms(rng, 100, end_ms - 500), dur_ms(rng, 1, 1500), rng.randint(1, n - 1)]
                  if rng.random() < 0.4 else None,
-        "late_join_ms": rng.choice([None, rng.randint(200, end_ms - 800)]),
+        "late_join_ms": rng.choice([None, dur_ms(rng, 100, end_ms - 500)]),
         # stand-alone phi detectors
-        "detectors": [{"hb_ms": rng.choice([20, 50, 100]), "poisson": rng.random() < 0.5,
-                       "threshold": rng.choice([1.0, 3.0, 8.0]), "window": rng.choice([5, 50, 200]),
-                       "min_std_ms": rng.choice([1, 10, 100]), "initial": rng.random() < 0.5,
-                       "silent": [rng.randint(300, end_ms - 1000), rng.randint(100, 800)]}
-                      for _ in range(rng.randint(1, 3))],
-        "sample_ms": rng.choice([25, 60]),
+        "detectors": det,
+        "sample_ms": dur_ms(rng, 5, 80) if rng.random() < 0.7 else dur_ms(rng, 80, 1100),
     }
 
 
 def build(cfg, seed):
-    from happysimulator.components.consensus import MembershipProtocol, PhiAccrualDetector
+    from happysimulator.components.consensus import MemberState, MembershipProtocol, PhiAccrualDetector
     from happysimulator.components.network import Network, NetworkLink, datacenter_network
     from happysimulator.core.entity import Entity
     from happysimulator.core.event import Event
@@ -78,12 +108,17 @@ def build(cfg, seed):
             return NetworkLink(name=name, latency=ExponentialLatency(lat))
         if k == "jitter":
             return NetworkLink(name=name, latency=ConstantLatency(lat), jitter=ExponentialLatency(lat / 2))
+        if k == "zero":
+            return NetworkLink(name=name, latency=ConstantLatency(0.0))
+        if k == "const-lossy":
+            return NetworkLink(name=name, latency=ConstantLatency(lat), packet_loss_rate=cfg["loss"])
         return NetworkLink(name=name, latency=ExponentialLatency(lat), packet_loss_rate=cfg["loss"])
 
     def at_s(ms):
         return Instant.from_seconds(ms / 1000.0)
 
-    nodes = [MembershipProtocol(name=f"member-{i}", network=net, probe_interval=cfg["probe_ms"] / 1000.0,
+    pf = cfg.get("probe_factor") or [1] * n
+    nodes = [MembershipProtocol(name=f"member-{i}", network=net, probe_interval=cfg["probe_ms"] * pf[i] / 1000.0,
                                 suspicion_timeout=cfg["suspicion_ms"] / 1000.0,
                                 indirect_probe_count=cfg["indirect"], phi_threshold=cfg["phi"])
              for i in range(n)]
@@ -100,7 +135,11 @@ def build(cfg, seed):
             net.add_bidirectional_link(a, b, mk_link(f"l-{a.name}-{b.name}"))
 
     pre = []
+    direct = []
     for i, nd in enumerate(nodes):
+        if cfg.get("boot", "event") == "direct" and i * cfg["stagger_ms"] == 0:
+            direct.append(nd)        # started before the run: sim.schedule(node.start())
+            continue
         pre.append(_d(Event.once, time=at_s(i * cfg["stagger_ms"]), event_type="Boot", fn=lambda e, nd=nd: nd.start(),
                               daemon=True))
     if late is not None:
@@ -120,7 +159,7 @@ def build(cfg, seed):
         faults.add(CrashNode(victim.name, at=st["start"] / 1000.0))
     elif st["kind"] == "pause":
         faults.add(PauseNode(victim.name, start=st["start"] / 1000.0, end=st["end"] / 1000.0))
-    else:
+    elif st["kind"] in ("partition", "partition-forever"):
         h = {}
         pre.append(_d(Event.once, time=at_s(st["start"]), event_type="Isolate",
                               fn=lambda e: h.__setitem__("h", net.partition([victim], others))))
@@ -142,9 +181,9 @@ def build(cfg, seed):
 
         def __init__(self, k, dc):
             super().__init__(f"monitor-{k}")
-            self.det = PhiAccrualDetector(threshold=dc["threshold"], max_sample_size=dc["window"],
-                                          min_std=dc["min_std_ms"] / 1000.0,
-                                          initial_interval=dc["hb_ms"] / 1000.0 if dc["initial"] else None)
+            kw = {} if dc["window"] is None else {"max_sample_size": dc["window"]}      # None: library default (200)
+            self.det = PhiAccrualDetector(threshold=dc["threshold"], min_std=dc["min_std_ms"] / 1000.0,
+                                          initial_interval=dc["hb_ms"] / 1000.0 if dc["initial"] else None, **kw)
             self.samples = []
             self.flips = 0
             self.last_avail = None
@@ -176,9 +215,11 @@ def build(cfg, seed):
             if a <= ms < a + d:
                 self.suppressed += 1
                 return None
-            self.sent += 1
-            ev = net.send(self, self.mon, "Heartbeat", payload={"n": self.sent}, daemon=True)
-            return [ev]
+            out = []
+            for _ in range(self.dc.get("burst", 1)):      # > 1: several heartbeats leave at the same instant
+                self.sent += 1
+                out.append(net.send(self, self.mon, "Heartbeat", payload={"n": self.sent}, daemon=True))
+            return out
 
     monitors, beaters, sources = [], [], []
     for k, dc in enumerate(cfg["detectors"]):
@@ -206,6 +247,8 @@ def build(cfg, seed):
         evs = [f(**kw) for f, kw in pre]
     for ev in evs:
         sim.schedule(ev)
+    for nd in direct:
+        sim.schedule(nd.start())
 
     obs = {"faults": stats_of(faults), "log": lambda: log,
            "net": lambda: {"routed": net.events_routed, "no_route": net.events_dropped_no_route,
@@ -217,6 +260,8 @@ def build(cfg, seed):
         obs[nd.name + ".x"] = (lambda nd=nd: {
             "alive": sorted(nd.alive_members), "suspect": sorted(nd.suspected_members),
             "dead": sorted(nd.dead_members),
+            "by_state": [[st_.name, sum(1 for m in nodes if m is not nd and nd.get_member_state(m.name) is st_)]
+                         for st_ in (MemberState.ALIVE, MemberState.SUSPECT, MemberState.DEAD)],
             "states": [[m.name, None if nd.get_member_state(m.name) is None else nd.get_member_state(m.name).name]
                        for m in nodes if m is not nd]})
     end_s = end
